@@ -142,9 +142,10 @@ pub fn real_history<T: Nums + Evaluate + Sync>(m: &mut Mon, r: &mut Rng, positiv
     } else {
         gen_ends_any(r, n).0
     };
-    let coeffs: Vec<Vec<f64>> = (0..ends.len())
+    let mut coeffs: Vec<Vec<f64>> = (0..ends.len())
         .map(|_| (0..T::LEN).map(|_| r.mixed(2.0)).collect())
         .collect();
+    repeat_some_pieces(r, &mut coeffs);
     let pw: Piecewise<T> = pw_from(&ends, &coeffs);
     real_history_on(m, r, &pw, allow_nan, maxlen);
 }
